@@ -9,3 +9,4 @@ git -C $WT apply /verif/seeded/$NAME/patch.diff || { echo "patch does not apply"
 cd /verif
 for c in "$@"; do VERIF_REPO=$WT VERIF_RUN_TAG=seed1 ./check $c > /tmp/seedone_${NAME}_$c.txt 2>&1; rc=$?; echo "$NAME $c rc=$rc $(grep -o 'violated clause [A-Za-z_]*' /tmp/seedone_${NAME}_$c.txt | sort | uniq -c | tr '\n' ';' | tr -s ' ')"; done
 git -C /repo worktree remove --force $WT
+rm -rf /tmp/verif-altcache
